@@ -259,6 +259,50 @@ def export_model_stream(ctx, cases):
                 rep.fail("corr", case, f"{mo['module']}: the model's export of the elaborated module is not what the exporter wrote ({r['export_equal']})")
 
 
+def gen_named_dag(rng):
+    n = rng.randint(2, 7)
+    pool = ["A", "B", "C", "D"] if rng.random() < 0.6 else [f"M{k}" for k in range(n)]
+    names = [rng.choice(pool) for _ in range(n)] if pool[0] == "A" else pool
+    children = [[]]
+    for k in range(1, n):
+        children.append([rng.randrange(k) for _ in range(rng.choice([0, 1, 1, 2, 3]))])
+    tops = [rng.randrange(n) for _ in range(rng.choice([1, 1, 2, 3]))]
+    return {"names": names, "children": children, "tops": tops}
+
+
+def impl_named_dag(case):
+    mods = []
+    for k, nm in enumerate(case["names"]):
+        m = h.Module(name=nm)
+        m.add(h.Signal(name="tag", width=k + 1))  # tells modules of one name apart in the package
+        for j, c in enumerate(case["children"][k]):
+            m.add(h.Instance(of=mods[c]), name=f"i{j}")
+        mods.append(m)
+    try:
+        pkg = h.to_proto([mods[t] for t in case["tops"]])
+    except RuntimeError as ex:
+        return {"refused": str(ex)[-160:]}
+    return {"ok": [next(s.width for s in pm.signals if s.name == "tag") - 1 for pm in pkg.modules]}
+
+
+def line_named_dag(case):
+    return dict(case, prop="EN", op="export")
+
+
+def judge_named_dag(case, im, mo):
+    if "ok" in im:
+        names = [case["names"][k] for k in im["ok"]]
+        if len(set(names)) != len(names):
+            yield ("pred", f"a package with two modules of one name was returned: {names}")
+    if ("ok" in im) != ("ok" in mo):
+        yield ("corr", f"implementation {im}, model {mo}")
+    elif "ok" in im and im["ok"] != mo["ok"]:
+        yield ("corr", f"module order {im['ok']} vs model {mo['ok']}")
+
+
+SN = common.Stream("named_dags", impl_named_dag, line_named_dag, judge_named_dag, chunk=16)
+
+
 def run(ctx):
     rep = ctx.rep
     rep.extra["rule"] = (
@@ -277,6 +321,8 @@ def run(ctx):
         judge_pkg(rep, "generated", json.dumps(c["design"])[:4000], im["pkg"], im["accept"], mo["wf_problems"])
     rep.extra["generated_exported"] = nexp
     export_model_stream(ctx, [dict(c, accept=False) for c in cases[: (120 if ctx.quick else 2000)]])
+    # the exporter's traversal with names (exportNamedTops, theorem exported_names_unique) against the real one
+    SN.run(ctx, [gen_named_dag(ctx.rng) for _ in range(300 if ctx.quick else 6000)])
     # 1b. lists of tops: random sub-lists and orders of the modules of a design, exported in one call
     lcases = [c for c in designs.gen_cases(ctx.rng, n // 2, styles=("proc",)) if len(c["design"]["modules"]) >= 2]
     for c, res in zip(lcases, common.pmap(export_list, [dict(c, order_seed=k) for k, c in enumerate(lcases)], chunk=4)):
